@@ -207,6 +207,10 @@ CHECKS = {
 
 # clauses added by later seed waves (kept apart so the base texts above stay readable)
 ADDENDA = {
+    "C04": "CFF glyph boxes: a value is rounded to nearest exactly where the charstring pen rounds that coordinate (guard entailment over numeric atoms, both directions), "
+           "else floored / ceiled; pen and box share one tolerance.",
+    "C10": "For a designspace the kerning groups are collected from every source's font (both kern writers).",
+    "C19": "Master and instance locations are normalised by one function with nothing applied on top (sibling agreement over the instantiator module).",
     "C16": "Name-record keys follow the (nameID, platform, encoding, language) tuple of the UFO record; InfoCompiler._set_attrs copies every listed "
            "attribute; every bit-list attribute is converted over the whole range of bits the UFO specification allows.",
     "C05": "Kerning class names pass through unchanged; a glyph's scripts are folded into Common exactly under `scripts & DFLT_SCRIPTS` (Zyyy, Zinh).",
